@@ -38,9 +38,21 @@ type c09Case struct {
 	Algo   int         `json:"algo"`
 	Skew   int         `json:"skew"`
 	Period int         `json:"period"`
-	Reg    string      `json:"reg"` // OCRA: registered suite name
+	Reg    string      `json:"reg"` // OCRA: registered suite name ("" = hand-built configuration Cfg)
+	Cfg    ref.OCRACfg `json:"cfg"`
 	In     ref.OCRAIn  `json:"in"`
 	Salt   uint64      `json:"salt"` // derives the tails of the wrong codes
+}
+
+func (c c09Case) ocraSuite() (otp.Suite, ref.OCRACfg) {
+	if c.Reg != "" {
+		su, _ := otp.NewRawSuite(c.Reg)
+		rd, _ := ref.ReadSuite(c.Reg, true)
+		return su, rd.Cfg
+	}
+	k := c.Cfg
+	return otp.SuiteConfig{Raw: k.Raw, Hash: otp.Algorithm(k.Hash), Digits: k.Digits, Challenge: otp.ChallengeFormat(k.QFormat), IncludeCounter: k.C, IncludeChallenge: k.Q,
+		IncludePassword: k.P, IncludeSession: k.S, IncludeTimestamp: k.T, PasswordHash: otp.PasswordHashAlgorithm(k.PHash), TimeStep: k.TimeStep}, k
 }
 
 func toLibIn(in ref.OCRAIn) otp.OCRAInput {
@@ -65,7 +77,7 @@ func (c c09Case) prepare(code string) func() bool {
 		tm := time.Unix(int64(c.N), 0)
 		return func() bool { okk, _ := otp.ValidateTOTP(secret, code, tm, p); return okk }
 	case "ocra":
-		su, _ := otp.NewRawSuite(c.Reg)
+		su, _ := c.ocraSuite()
 		in := toLibIn(c.In)
 		return func() bool { okk, _ := otp.ValidateOCRA(secret, code, su, in); return okk }
 	case "wasm":
@@ -96,7 +108,14 @@ func (c c09Case) prepare(code string) func() bool {
 			put("password_hex", c.In.P)
 			put("session_info_hex", c.In.S)
 			put("timestamp_hex", c.In.T)
-			body, _ = json.Marshal(map[string]any{"secret": secret, "code": code, "raw_suite": c.Reg, "input": in})
+			if c.Reg != "" {
+				body, _ = json.Marshal(map[string]any{"secret": secret, "code": code, "raw_suite": c.Reg, "input": in})
+			} else {
+				k := c.Cfg
+				body, _ = json.Marshal(map[string]any{"secret": secret, "code": code, "input": in, "suite": map[string]any{"hash_function": algoNames[k.Hash], "code_digits": k.Digits,
+					"challenge_format": k.QFormat, "include_counter": k.C, "include_challenge": k.Q, "include_password": k.P, "include_session": k.S, "include_timestamp": k.T,
+					"password_hash": k.PHash, "timestep": k.TimeStep}})
+			}
 		}
 		return func() bool {
 			var ctx fasthttp.RequestCtx
@@ -116,12 +135,15 @@ func (c c09Case) prepare(code string) func() bool {
 func (c c09Case) expected() (centre string, window []string, digests []string) {
 	switch c.Entry {
 	case "ocra", "rest-ocra":
-		rd, _ := ref.ReadSuite(c.Reg, true)
-		e, err := ref.OCRA(c.Key, rd.Cfg, c.In)
+		_, cfg := c.ocraSuite()
+		if c.Entry == "rest-ocra" && c.Reg == "" {
+			cfg.Raw = "" // a structured REST suite has no name
+		}
+		e, err := ref.OCRA(c.Key, cfg, c.In)
 		if err != nil {
 			panic("HARNESS: inadmissible OCRA case")
 		}
-		d := ref.HMAC(rd.Cfg.Hash, c.Key, ref.OCRAMessage(rd.Cfg, c.In))
+		d := ref.HMAC(cfg.Hash, c.Key, ref.OCRAMessage(cfg, c.In))
 		return e, []string{e}, []string{string(d), hex.EncodeToString(d), strings.ToUpper(hex.EncodeToString(d))}
 	}
 	n := c.N
@@ -305,9 +327,20 @@ func genC09(t *rapid.T) c09Case {
 				names[j], names[j-1] = names[j-1], names[j]
 			}
 		}
-		c.Reg = rapid.SampledFrom(names).Draw(t, "reg")
-		rd, _ := ref.ReadSuite(c.Reg, true)
-		cfg := rd.Cfg
+		var cfg ref.OCRACfg
+		if rapid.Bool().Draw(t, "registered") {
+			c.Reg = rapid.SampledFrom(names).Draw(t, "reg")
+			rd, _ := ref.ReadSuite(c.Reg, true)
+			cfg = rd.Cfg
+		} else { // hand-built configuration: every digit count 4..10
+			mask := rapid.IntRange(1, 31).Draw(t, "fields")
+			cfg = ref.OCRACfg{Raw: "OCRA-1:custom", Hash: c.Algo, Digits: rapid.IntRange(4, 10).Draw(t, "ocraDigits"), C: mask&1 != 0, Q: mask&2 != 0, P: mask&4 != 0, S: mask&8 != 0, T: mask&16 != 0,
+				QFormat: rapid.IntRange(1, 6).Draw(t, "qf"), PHash: rapid.IntRange(1, 3).Draw(t, "ph"), TimeStep: 60, SessionNN: -1}
+			if c.Entry == "rest-ocra" {
+				cfg.Raw = ""
+			}
+			c.Cfg = cfg
+		}
 		fill := func(n int, label string) []byte { return rapid.SliceOfN(rapid.Byte(), n, n).Draw(t, label) }
 		if cfg.C {
 			c.In.C = fill(8, "inC")
